@@ -219,7 +219,28 @@ def _reversed(I, args, kw):
 @model('builtins.sorted')
 def _sorted(I, args, kw):
     items = I.iterate(args[0])
-    if any(is_sym(x) for x in items) or kw.get('key') is not None:
+    from .arrays import AbsStr
+    if items and all(isinstance(x, AbsStr) for x in items) and kw.get('key') is None and len(items) <= 5:
+        # strings known only up to equality: their order is an uninterpreted strict total order (axioms instantiated on
+        # the strings at hand); every outcome of the comparisons is explored
+        import z3 as _z3
+        lt = _z3.Function('str_lt', _z3.IntSort(), _z3.IntSort(), _z3.BoolSort())
+        ids = [x.sid for x in items]
+        for a in ids:
+            I.ctx.assume(_z3.Not(lt(a, a)))
+            for b in ids:
+                I.ctx.assume(_z3.Or(lt(a, b), lt(b, a), a == b))
+                I.ctx.assume(_z3.Not(_z3.And(lt(a, b), lt(b, a))))
+                for c in ids:
+                    I.ctx.assume(_z3.Implies(_z3.And(lt(a, b), lt(b, c)), lt(a, c)))
+        out = []
+        for x in items:                     # insertion sort, stable
+            k = len(out)
+            while k > 0 and I.ctx.branch(lt(x.sid, out[k - 1].sid)):
+                k -= 1
+            out.insert(k, x)
+        return out[::-1] if kw.get('reverse') else out
+    if any(is_sym(x) for x in items) or kw.get('key') is not None or any(isinstance(x, AbsStr) for x in items):
         raise Unsupported('sorted on symbolic values / key')
     return sorted(items, reverse=bool(kw.get('reverse', False)))
 
